@@ -8,6 +8,7 @@ import Penguin.Model.Mux
 import Penguin.Lemmas.MuxBasic
 import Penguin.Lemmas.MuxStep
 import Penguin.Lemmas.MuxBound
+import Penguin.Lemmas.MuxReply
 
 namespace Penguin.C10
 open Penguin Penguin.Mux
@@ -102,6 +103,24 @@ theorem peer_cannot_overfill_buffers (o : Opts) (ops : List Mux.Op) :
   have h2 := h.acc; have h3 := h.dg; have h4 := h.bnd
   rw [ho] at h2 h3 h4
   exact ⟨h.rxq, h2, h3, h4⟩
+
+/-- No amplification: for EVERY endpoint state and EVERY incoming frame, processing the frame puts at
+    most ONE message on the outbound queue (and removes none) — an arbitrary peer gets at most one
+    reply (`Acknowledge` or `Reset`) per frame it sends, so it cannot make the endpoint flood the
+    connection. (`Lemmas/MuxReply.lean`; a rejected open request is retried later by its own future,
+    once, not by the receive loop.) -/
+theorem never_amplifies (e : EP) (f : Frame) (ig : Bool) :
+    ∃ extra, (processFrame e f ig).1.outq = e.outq ++ extra ∧ extra.length ≤ 1 :=
+  Mux.processFrame_atMost1 e f ig
+
+/-! Non-vacuity: a `Connect` is answered with exactly one `Acknowledge`; a `Push` that overruns the
+    window with exactly one `Reset`; a `Reset` with nothing. -/
+example : (processFrame { opts := {}, outq := [.ping] } (.connect 5 4 80 []) false).1.outq =
+    [.ping, .frame (.acknowledge 5 4)] := by decide
+private def full5 : EP :=
+  { opts := {}, flows := [(5, .established 0)], objs := [{ fid := 5, cap := 0, credit := 4, threshold := 4 }] }
+example : (processFrame full5 (.push 5 [1]) false).1.outq = [.frame (.reset 5)] := by decide
+example : (processFrame full5 (.reset 5) false).1.outq = [] := by decide
 
 /-! Non-vacuity: three `Push` frames into a window of two: two are queued, the third resets the flow. -/
 example : ((runOps { opts := { rwnd := 2 } } [.deliver (.msg (.frame (.connect 5 9 80 []))),
